@@ -9,6 +9,7 @@
 (*   exc : "" or the exception class name                                                     *)
 (*   ht  : present headers after the step, <<[h, t]>> (first line of each name); nh = number  *)
 (*         of header lines, nhh / nhb = lines of header h after / before the step             *)
+(*   ht2, nh2 : the same after the recorder re-read the property (state for the next line)    *)
 (*   vt  : optional view.to_header(); vp: projection of the mutated view (reads through the    *)
 (*         public API); rp: projection of the re-read property; rb: value read back            *)
 (* The judge keeps, per trace, the documented-model value of every live view and the header    *)
@@ -54,6 +55,11 @@ RbEq(rb, e) == e.tg = "any" \/ (rb.tg = e.tg /\ rb.n = e.n /\ rb.s = e.s)
 
 FrameOK(s, ln) == /\ Others(ln.ht, ln.h) = Others(s.ht, ln.h)
                   /\ ln.nh - ln.nhh = s.nh - ln.nhb
+RereadOK(ln) == LET a == HtGet(ln.ht, ln.h) b == HtGet(ln.ht2, ln.h) IN
+                /\ Others(ln.ht2, ln.h) = Others(ln.ht, ln.h)
+                /\ (b = a \/ ~ValueOK(ln.k, ln.rp) \/ b = Written(ln.k, ln.rp, a))
+\* number of lines of the header: untouched, or exactly one when present
+NhhOK(ln, now, prev) == (now = prev /\ ln.nhh = ln.nhb) \/ ln.nhh = (IF now = None THEN 0 ELSE 1)
 ModelPostOK(ln, now) == ~ln.hasexp \/ ln.exp = now
 
 \* ---------------------------------------------------------------- a mutation through a live view
@@ -75,23 +81,28 @@ ViewStep(s, ln) ==
               ELSE IF ~Empty(k, r.v) /\ k # "mtp" /\ ln.vt # Some(Ser(k, r.v, <<>>)) THEN "ViewText"
               ELSE IF now = wr /\ RoundTrips(k, r.v) /\ ln.rp # NF(k, r.v) THEN "RereadEqualsView"
               ELSE IF ~RbEq(ln.rb, TypedRead(k, ln.op, ln.a, r.v)) THEN "AssignReadBack"
-              ELSE IF ~FrameOK(s, ln) \/ ln.nhh # (IF now = None THEN 0 ELSE 1) THEN "Frame"
+              ELSE IF ~FrameOK(s, ln) \/ ~NhhOK(ln, now, prev) THEN "Frame"
+              ELSE IF ~RereadOK(ln) THEN "RereadKeepsHeader"
               ELSE IF ~ModelPostOK(ln, now) THEN "ModelPost"
               ELSE "ok"
       nv   == IF c = "ok" /\ ~ood THEN r.v ELSE ln.vp
-  IN [c |-> c, s |-> [views |-> [s.views EXCEPT ![ln.vw] = [k |-> vw.k, h |-> vw.h, v |-> nv]], ht |-> ln.ht, nh |-> ln.nh]]
+  IN [c |-> c, d |-> ~ood, s |-> [views |-> [s.views EXCEPT ![ln.vw] = [k |-> vw.k, h |-> vw.h, v |-> nv]], ht |-> ln.ht2, nh |-> ln.nh2]]
 
 \* ---------------------------------------------------------------- reading the property: a fresh live view
-PutView(views, i, e) == IF i <= Len(views) THEN [views EXCEPT ![i] = e] ELSE Append(views, e)
+NoView == [k |-> "", h |-> 0, v |-> <<>>]
+NoViews == [i \in 1..8 |-> NoView]
+PutView(views, i, e) == IF i \in 1..8 THEN [views EXCEPT ![i] = e] ELSE views
 GetStep(s, ln) ==
   LET prev == HtGet(s.ht, ln.h)
       now  == HtGet(ln.ht, ln.h)
+      \* reading may only change the header towards coherence with the view it returns
       c == IF ln.exc # "" THEN "OpOutcome"
-           ELSE IF now # prev \/ ~FrameOK(s, ln) \/ ln.nhh # ln.nhb THEN "GetIsPure"
+           ELSE IF ~FrameOK(s, ln) THEN "Frame"
+           ELSE IF now # prev /\ ValueOK(ln.k, ln.vp) /\ now # Written(ln.k, ln.vp, prev) THEN "HeaderEqualsView"
            ELSE IF now = None /\ ln.k # "mtp" /\ ln.vp # EmptyView(ln.k) THEN "AbsentReadsEmpty"
            ELSE IF ValueOK(ln.k, ln.vp) /\ ~Empty(ln.k, ln.vp) /\ ln.k # "mtp" /\ ln.vt # Some(Ser(ln.k, ln.vp, <<>>)) THEN "ViewText"
            ELSE "ok"
-  IN [c |-> c, s |-> [views |-> PutView(s.views, ln.vw, [k |-> ln.k, h |-> ln.h, v |-> ln.vp]), ht |-> ln.ht, nh |-> ln.nh]]
+  IN [c |-> c, d |-> ValueOK(ln.k, ln.vp), s |-> [views |-> PutView(s.views, ln.vw, [k |-> ln.k, h |-> ln.h, v |-> ln.vp]), ht |-> ln.ht2, nh |-> ln.nh2]]
 
 \* ---------------------------------------------------------------- whole-property assignment, del, direct header edit
 AssignExp(ln) ==       \* [ok, e: expected optional header text, n: expected number of lines, v: assigned abstract value or <<"-">>]
@@ -124,13 +135,14 @@ AssignStep(s, ln) ==
            ELSE IF now # x.e THEN "AssignHeader"
            ELSE IF x.rt /\ ln.rp # x.v THEN "AssignReadBack"
            ELSE IF ~FrameOK(s, ln) \/ ln.nhh # nl THEN "Frame"
+           ELSE IF ~RereadOK(ln) THEN "RereadKeepsHeader"
            ELSE IF ~ModelPostOK(ln, now) THEN "ModelPost"
            ELSE "ok"
       \* an assigned WWWAuthenticate object becomes a live view
       vs == IF ln.op = "assign" /\ ln.k = "wa" /\ ln.a.tag = "value" /\ ln.vw > 0
             THEN PutView(s.views, ln.vw, [k |-> "wa", h |-> ln.h, v |-> IF x.ok /\ c = "ok" THEN ln.a.w ELSE ln.vp])
             ELSE s.views
-  IN [c |-> c, s |-> [views |-> vs, ht |-> ln.ht, nh |-> ln.nh]]
+  IN [c |-> c, d |-> x.ok, s |-> [views |-> vs, ht |-> ln.ht2, nh |-> ln.nh2]]
 
 \* ---------------------------------------------------------------- scalar typed properties
 U(tg, n, m, s, xs) == [tg |-> tg, n |-> n, m |-> m, s |-> s, xs |-> xs]
@@ -166,26 +178,28 @@ ScStep(s, ln) ==
            ELSE IF ln.exc # x.exc THEN "OpOutcome"
            ELSE IF now # e THEN "AssignHeader"
            ELSE IF x.rb.tg # "any" /\ ln.rb # x.rb THEN "AssignReadBack"
-           ELSE IF ~FrameOK(s, ln) \/ ln.nhh # (IF now = None THEN 0 ELSE 1) THEN "Frame"
+           ELSE IF ~FrameOK(s, ln) \/ ~NhhOK(ln, now, prev) THEN "Frame"
            ELSE "ok"
-  IN [c |-> c, s |-> [views |-> s.views, ht |-> ln.ht, nh |-> ln.nh]]
+  IN [c |-> c, d |-> x.ok, s |-> [views |-> s.views, ht |-> ln.ht2, nh |-> ln.nh2]]
 
 Step(s, ln) ==
-  CASE ln.op = "init" -> [c |-> "ok", s |-> [views |-> <<>>, ht |-> ln.ht, nh |-> ln.nh]]
+  CASE ln.op = "init" -> [c |-> "ok", d |-> FALSE, s |-> [views |-> NoViews, ht |-> ln.ht2, nh |-> ln.nh2]]
     [] ln.op = "get_view" -> GetStep(s, ln)
     [] ln.op \in {"assign", "del_prop", "direct_edit"} -> AssignStep(s, ln)
     [] ln.op \in {"sc_assign", "sc_del"} -> ScStep(s, ln)
-    [] ln.vw >= 1 /\ ln.vw <= Len(s.views) -> ViewStep(s, ln)
-    [] OTHER -> [c |-> "BadLine", s |-> s]
+    [] ln.vw \in 1..8 -> ViewStep(s, ln)
+    [] OTHER -> [c |-> "BadLine", d |-> FALSE, s |-> s]
 
-Init == l = 1 /\ st = [views |-> <<>>, ht |-> <<>>, nh |-> 0]
+Init == l = 1 /\ st = [views |-> NoViews, ht |-> <<>>, nh |-> 0] /\ TLCSet(1, 0)
 
 Next == /\ l <= Len(Lines)
         /\ LET ln == Lines[l] r == Step(st, ln) IN
            /\ st' = r.s
+           /\ IF r.d THEN TLCSet(1, TLCGet(1) + 1) ELSE TRUE      \* lines judged inside the modelled domain
            /\ IF r.c = "ok" THEN TRUE
               ELSE PrintT(ToJson([reject |-> 1, t |-> ln.t, i |-> ln.i, clause |-> r.c]))
         /\ l' = l + 1
 
-Done == PrintT(ToJson([judged |-> Len(Lines)])) /\ TLCGet("generated") >= 0
+\* the second record is bookkeeping (number of lines judged inside the modelled domain), not a verdict
+Done == PrintT(ToJson([judged |-> Len(Lines)])) /\ PrintT(ToJson([reject |-> 1, t |-> 0 - 1, i |-> TLCGet(1), clause |-> "_indomain"])) /\ TLCGet("generated") >= 0
 =============================================================================
